@@ -164,6 +164,18 @@ pub fn record_lens(out: &mut Out, tier: &str, seed: u64, profile: &str) {
     let n = if tier == "thorough" { 30000 } else { 1800 };
     let mut rng = Rng::new(seed ^ 0xC02);
     let mut b = budget(tier);
+    for p in boundary_packets_v3("quick") {
+        lens_event::<V3>(out, &p, profile);
+    }
+    for p in boundary_packets_v5("quick") {
+        lens_event::<V5>(out, &p, profile);
+    }
+    for p in all_code_packets_v3() {
+        lens_event::<V3>(out, &p, profile);
+    }
+    for p in all_code_packets_v5() {
+        lens_event::<V5>(out, &p, profile);
+    }
     packets::<V3>(&mut rng, &mut b, n, |_r, p| lens_event::<V3>(out, p, profile));
     packets::<V5>(&mut rng, &mut b, n * 2, |_r, p| lens_event::<V5>(out, p, profile));
     // remaining-length width boundaries: body = 2 + topic_len + payload_len (QoS 0, v3) / + 1 (v5: empty properties)
@@ -261,6 +273,12 @@ pub fn record_enc(out: &mut Out, tier: &str, seed: u64) {
     let mut b = budget(tier);
     b.huge = b.huge.min(3);
     // every enum variant that is written as a wire number, in every packet type that carries it
+    for p in boundary_packets_v3("quick") {
+        enc_event::<V3>(out, &mut rng, &p);
+    }
+    for p in boundary_packets_v5("quick") {
+        enc_event::<V5>(out, &mut rng, &p);
+    }
     for p in all_code_packets_v3() {
         enc_event::<V3>(out, &mut rng, &p);
     }
